@@ -410,6 +410,63 @@ def check_descriptions_not_visited(ck, impl, docs):
         ck.count("spy_runs")
 
 
+def check_sdl_rules(ck, rng, quick, deadline):
+    """validate_sdl: every SDL rule alone vs all together, twice, document unchanged."""
+    from graphql import parse
+    try:
+        from graphql.validation.specified_rules import specified_sdl_rules
+        from graphql.validation.validate import validate_sdl
+    except Exception as e:  # noqa: BLE001
+        ck.degraded.append(f"validate_sdl/specified_sdl_rules not importable: {e!r}")
+        return
+    sdl_fixture = gen_doc.fixtures()[1]
+    texts = [sdl_fixture, "type Query { a: Int }", "type Query { a: Int } extend type Query { b: Int } type Query { c: Int }",
+             "schema { query: Q } schema { query: Q } type Q { a(x: Int, x: Int): Int a: Int } enum E { A A } directive @d on FIELD directive @d on FIELD"]
+    for i in range(60 if quick else 1200):
+        base = sdl_fixture if i % 4 == 0 else rng.choice(texts[1:])
+        mt = mutate(rng, base, rng.randint(1, 3))
+        if mt:
+            texts.append(mt)
+    for i in range(60 if quick else 1200):
+        g = gen_doc.Gen(rng, depth=2, experimental=False)
+        try:
+            texts.append(gen_doc.join_min(g.document("sdl")))
+        except Exception:  # noqa: BLE001
+            pass
+    for text in texts:
+        if time.time() > deadline:
+            ck.count("stopped_on_time_budget")
+            break
+        try:
+            doc = parse(text)
+        except Exception:  # noqa: BLE001
+            ck.count("skipped_unparseable")
+            continue
+        paths = node_paths(doc)
+        snap = norm(doc)
+        try:
+            full = observe(validate_sdl(doc), paths)
+        except Exception:  # noqa: BLE001
+            ck.count("validate_sdl_raised")
+            continue
+        rep = {"document": text[:2000], "relation": "validate_sdl: together = union of alone"}
+        again = observe(validate_sdl(doc), paths)
+        if again != full:
+            ck.violation(f"sdl-twice:{text!r}", f"validate_sdl twice gives different answers on {text!r}", rep)
+        union = []
+        for r in specified_sdl_rules:
+            try:
+                union += msgs(observe(validate_sdl(doc, None, [r]), paths))
+            except Exception as e:  # noqa: BLE001
+                ck.violation(f"sdl-alone-raises:{text!r}", f"SDL rule {r.__name__} alone raised {type(e).__name__} on {text!r}", rep)
+        if sorted(union) != msgs(full):
+            ck.violation(f"sdl-union:{text!r}", f"SDL rules together report a different multiset of errors than alone on {text!r}", rep)
+        if norm(doc) != snap:
+            ck.violation(f"sdl-mutated:{text!r}", f"validate_sdl modified the document {text!r}", rep)
+        ck.count("documents_sdl")
+        ck.note_case(("sdl", text), nontrivial=bool(full))
+
+
 # --------------------------------------------------------------------------- scripted rules vs the model
 
 
@@ -508,7 +565,8 @@ def run(tier):
                "schemas (from the C14 generator). Per document on the implementation: every specified rule alone vs all together "
                "(multiset of (message, AST node paths)), random subsets/orderings, max_errors in {0,1,2,5,None}, reprint / "
                "ignored characters / strip_ignored_characters / added descriptions / location-free AST, twice, snapshots of "
-               "document and schema. Scripted rule visitors (idle/skip/break, 0-3 errors per call, limit) through the real "
+               "document and schema; validate_sdl on the SDL kitchen sink, its mutants and grammar-random SDL (alone vs together). "
+               "Scripted rule visitors (idle/skip/break, 0-3 errors per call, limit) through the real "
                "validate() vs the extracted Compose model. non-trivial = document with at least one validation error; scripted "
                "run with at least one SKIP or BREAK")
     check_keys_table(ck)
@@ -589,6 +647,7 @@ def run(tier):
     check_descriptions_not_visited(ck, impl, desc_docs)
     # scripted rules vs the model
     scripted_rule_runs(ck, m, impl, parsed_for_model, rng, quick)
+    check_sdl_rules(ck, rng, quick, t0 + budget)
     ck.samples.append({"document": SEEDS[2], "checks": "alone/together, subsets, max_errors, metamorphic variants, twice, snapshots"})
     return ck.finish()
 
